@@ -20,7 +20,7 @@ func init() {
 	register(&PropDef{
 		ID:    "C05",
 		Pkgs:  []string{tr},
-		Claim: "Decides the structural part: the receive buffer's backlog and sticky error are accessed only under its mutex; once an error/EOF item was recorded nothing more is queued (later buffers are freed); items are appended at the tail, handed to the channel only when the backlog is empty, and taken from the head; compaction rewrites exactly the uncompacted suffix into one item at the suffix start; every reader calls load() after each receive so the next item moves up; the reader returns a recorded error first, keeps the unread remainder of a split buffer and consumes it before receiving again.",
+		Claim: "Decides the structural part: the receive buffer's backlog and sticky error are accessed only under its mutex; once an error/EOF item was recorded nothing more is queued (later buffers are freed); items are appended at the tail, handed to the channel only when the backlog is empty, and taken from the head; compaction rewrites exactly the uncompacted suffix into one item at the suffix start; every reader calls load() after each receive so the next item moves up; the reader returns a recorded error first, keeps the unread remainder of a split buffer and consumes it before receiving again. Stream.read / ReadMessageHeader return success only when the requested count reached zero, drop a reader error only when the request was completed by the same call, and report a partial read ending in EOF as ErrUnexpectedEOF; the read side is closed and the end signalled only for END_STREAM.",
 		NotDecided:  []string{"byte-exact equality of delivered data through compaction and splitting (value property)"},
 		Assumptions: []string{"mem.SplitUnsafe/ReadUnsafe split a buffer at the requested offset"},
 		Technique:   "static analysis: must-lockset, dominating guards on go/ssa branch facts, stored-value shape (append / reslice), must-pass-through",
